@@ -97,6 +97,18 @@ def extra_entries():
     # integer-valued constructor arguments
     add('PointwiseAffine/int', lambda: T.PointwiseAffineTransform(shift=1, scale=2), [3])
     add('PointwiseAffine/int-tensor', lambda: T.PointwiseAffineTransform(shift=torch.tensor([1, 0, -2]), scale=torch.tensor([2, 3, -4])), [3])
+    # wrappers around CONTEXT-dependent parts (both directions must hand the context on)
+    add('InverseTransform/ctx-AR', lambda: T.InverseTransform(T.MaskedAffineAutoregressiveTransform(3, 6, context_features=2, num_blocks=1)), [3], ctx=2,
+        extra={'no_inverse_oracle': False})
+    add('InverseTransform/ctx-Composite', lambda: T.InverseTransform(T.CompositeTransform([
+        T.MaskedAffineAutoregressiveTransform(3, 6, context_features=2, num_blocks=1), T.ReversePermutation(3),
+        T.AffineCouplingTransform([1, 0, 1], R.net_fn('res', 2))])), [3], ctx=2)
+    add('Composite/ctx', lambda: T.CompositeTransform([T.AffineCouplingTransform([1, 0, 1], R.net_fn('res', 2)), T.LULinear(3, identity_init=False),
+                                                        T.MaskedAffineAutoregressiveTransform(3, 6, context_features=2, num_blocks=1)]), [3], ctx=2)
+    # non-default stabilisers
+    add('BatchNorm/eps0.2', lambda: _init_batchnorm(T.BatchNorm(3, eps=0.2), 3), [3])
+    add('BatchNorm/eps0.2/fresh', lambda: T.BatchNorm(3, eps=0.2), [3], extra={'tol': 1e-4})
+    add('LULinear/eps0.1', lambda: T.LULinear(3, identity_init=False, eps=0.1), [3])
     add('InverseTransform', lambda: T.InverseTransform(T.CompositeTransform([T.LULinear(3, identity_init=False), T.LeakyReLU()])), [3])
     add('CompositeCDF', lambda: T.CompositeCDFTransform(T.Sigmoid(), T.PiecewiseRationalQuadraticCDF([2], num_bins=3)), [2])
 
